@@ -55,6 +55,9 @@ __CPROVER_requires(VF_BN_3PRE(bn, n, m))
 __CPROVER_assigns(VF_BN_FRAME(bn))
 __CPROVER_ensures(__CPROVER_return_value == 0 || __CPROVER_return_value == EOVERFLOW || __CPROVER_return_value == EINVAL)
 __CPROVER_ensures(__CPROVER_return_value == 0 ==> VF_BN_WF(*bn))
+/* no wrap-around needed and the difference already reduced (also for an unreduced minuend, e.g. m - n) */
+__CPROVER_ensures((VF_BN_OLDVAL(bn) >= VF_BN_OLDVAL(n) && VF_BN_OLDVAL(bn) - VF_BN_OLDVAL(n) < VF_BN_VAL(*m)) ==>
+    (__CPROVER_return_value == 0 && VF_BN_VAL(*bn) == VF_BN_OLDVAL(bn) - VF_BN_OLDVAL(n)))
 __CPROVER_ensures((VF_BN_OLDVAL(bn) < VF_BN_VAL(*m) && VF_BN_OLDVAL(n) < VF_BN_VAL(*m) && m->digits <= bn->count) ==>
     (__CPROVER_return_value == 0 && VF_BN_VAL(*bn) == ((VF_BN_OLDVAL(bn) >= VF_BN_OLDVAL(n)) ?
 	(VF_BN_OLDVAL(bn) - VF_BN_OLDVAL(n)) : (VF_BN_OLDVAL(bn) + VF_BN_VAL(*m) - VF_BN_OLDVAL(n)))))
